@@ -116,7 +116,7 @@ PROPS = {
         "world": "B: authorization-server node (session database on the simulator's cache store) and client node, real RFC021 and DPoP flows over the simulated HTTP transport",
         "rule": "each run obtains one valid one-time secret from the real flow (service-to-service presentation nonce: the client's real token request, lost on the "
                 "wire; DPoP proof id: real token, real proof), presents it in 2-3 concurrent requests whose individual session-store operations are scheduling points, "
-                "then replays it sequentially at +0 s, +2 s, +20 s and +20 min. Distinct = distinct (kind, interleaving of store operations) signatures.",
+                "then replays it sequentially at +0, +2, +4, +6, +8, +11, +21 s, +14, +16 and +36 min. Distinct = distinct (kind, interleaving of store operations) signatures.",
         "invariants": ["C05.once.s2s-nonce", "C05.once.dpop-jti"],
         "assumptions": ["only the in-memory session database (default deployment) is simulated; Redis/Memcached back-ends are not",
                         "authorization code, stored request object and OpenID4VP nonce need the browser-facing user flow and are not driven (see DESIGN.md C05)"],
